@@ -43,6 +43,8 @@ def gen(ctx):
     for i, c in enumerate(cases):
         if i % 5 == 1:
             c['iterchunks'] = ('swapped', 'wider')[(i // 5) % 2]
+        elif i % 5 == 3 and not any(o['op'] == 'delete' for o in c['ops']):
+            c['heldopen'] = True        # the whole history inside an open_array() context: same files, same answers
     # truncation indices that are NumPy integers of a narrow type, large enough for the byte offset of the cut
     # to overflow that type (they are refused as non-ints; a change that accepts them must still cut correctly)
     for k, (nt, sh, idx, kind) in enumerate([('float64', (40, 10), 30, 'npuint8'), ('int64', (300,), 200, 'npint16'),
